@@ -5,13 +5,12 @@ CONSTANTS
   MaxArg = 2
   MaxLen = 4
   MaxChains = 4
-  MaxHands = 1
-  MaxOps = 5
+  MaxHands = 0
+  MaxOps = 4
   MaxReqs = 0
-  Variant = "forward"
-  Emit = FALSE
+  Variant = "alias"
+  Emit = TRUE
   EmitFrom = 1
-INVARIANTS Refines WalkOK WalksOwnHandler
-PROPERTIES ImmutableP
+INVARIANTS PrintBad
 VIEW View
 CHECK_DEADLOCK FALSE
